@@ -1,3 +1,4 @@
+pub mod c07;
 pub mod c08;
 pub mod c09;
 
@@ -9,6 +10,7 @@ pub type ReplayFn = fn(&mut Ctx, &ReplayFile) -> bool;
 pub fn lookup(id: &str) -> Option<(&'static str, RunFn, ReplayFn, &'static str)> {
     // (id, run, replay, level)
     Some(match id {
+        "C07" => ("C07", c07::run, c07::replay, "exploration"),
         "C08" => ("C08", c08::run, c08::replay, "exploration"),
         "C09" => ("C09", c09::run, c09::replay, "exploration"),
         _ => return None,
